@@ -252,6 +252,25 @@ class FermionicArray(AbelianArray):
             other, fn, inplace=True, **kwargs
         )
 
+    def apply_to_arrays(self, fn):
+        """Apply the ``fn`` inplace to the array of every block. Any lazy
+        phases are multiplied in first, so that ``fn`` acts on actual values.
+        """
+        self.phase_sync(inplace=True)
+        super().apply_to_arrays(fn)
+
+    def item(self):
+        """Convert the block array to a scalar if it is a scalar block array,
+        accounting for lazy phases.
+        """
+        return AbelianArray.item(self.phase_sync())
+
+    def _do_reduction(self, fn):
+        """Perform an (associative) reduction operation on blocks of the array,
+        accounting for lazy phases.
+        """
+        return AbelianArray._do_reduction(self.phase_sync(), fn)
+
     def _map_blocks(self, fn_block=None, fn_sector=None):
         super()._map_blocks(fn_block, fn_sector)
         if fn_sector is not None:
